@@ -723,6 +723,23 @@ fn fork_request(
     }
 }
 
+/// Same, but the strand's heads are not default writers (so the duplicate-default-writer check of
+/// head registration cannot mask a missing lane-ownership check).
+fn fork_request_nd(
+    strand: StrandId,
+    source: WorldlineId,
+    t: u64,
+    child_wl: WorldlineId,
+    heads: Vec<WriterHeadKey>,
+) -> ForkStrandRequest {
+    let mut q = fork_request(strand, source, t, child_wl, vec![]);
+    q.writer_heads = heads
+        .into_iter()
+        .map(|k| WriterHead::with_routing(k, PlaybackMode::Play, InboxPolicy::AcceptAll, None, false))
+        .collect();
+    q
+}
+
 fn relane(mut e: ProvenanceEntry, source: WorldlineId, new_id: WorldlineId) -> ProvenanceEntry {
     e.worldline_id = new_id;
     if let Some(h) = e.head_key.as_mut() {
@@ -1758,6 +1775,35 @@ fn probes(cx: &Ctx, st: &St, path: &[Op]) {
             "source-head-key-reused",
             fork_request(fresh, parent(), 0, fresh_wl, vec![phead()]),
         ),
+        (
+            "non-default-head-on-source-lane",
+            fork_request_nd(
+                fresh,
+                parent(),
+                0,
+                fresh_wl,
+                vec![WriterHeadKey {
+                    worldline_id: parent(),
+                    head_id: make_head_id("fh"),
+                }],
+            ),
+        ),
+        (
+            "two-heads-one-on-source-lane",
+            fork_request_nd(
+                fresh,
+                parent(),
+                0,
+                fresh_wl,
+                vec![
+                    fresh_head,
+                    WriterHeadKey {
+                        worldline_id: parent(),
+                        head_id: make_head_id("fh"),
+                    },
+                ],
+            ),
+        ),
         ("no-writer-heads", fork_request(fresh, parent(), 0, fresh_wl, vec![])),
         (
             "unknown-source-lane",
@@ -1772,6 +1818,19 @@ fn probes(cx: &Ctx, st: &St, path: &[Op]) {
         bad.push((
             "child-lane-taken",
             fork_request(fresh, parent(), 0, child(k), vec![shead(k)]),
+        ));
+        bad.push((
+            "non-default-head-on-other-strand-lane",
+            fork_request_nd(
+                fresh,
+                parent(),
+                0,
+                fresh_wl,
+                vec![WriterHeadKey {
+                    worldline_id: child(k),
+                    head_id: make_head_id("fh"),
+                }],
+            ),
         ));
         bad.push((
             "head-on-other-strand-lane",
